@@ -181,6 +181,8 @@ contract('pyx12.x12file.X12Reader.cleanup',
          ensures=['envelope_codes(self.err_list) == envelope_codes(old(self.err_list)) + end_errors(self.loops)',
                   'self.loops == old(self.loops)'],
          raises={}, build='build_reader_cleanup',
+         ghost={'search': {'self/.loops': [[['ISA', ['1']]], [['ISA', ['1']], ['GS', ['2']]], [['ISA', ['1']], ['GS', ['2']], ['ST', ['3']]], [['ST', ['9']]], []],
+                           'self/.err_list': [[]]}},
          loops={0: dict(index='k', ghost={'errs0': 'self.err_list'},
                         invariant=['envelope_codes(self.err_list) == envelope_codes(errs0) + end_errors(self.loops[:k])'],
                         modifies=['self.err_list', 'err_str'], types={'err_str': Str})},
@@ -376,3 +378,57 @@ def build_reader_cleanup(args):
     import pyx12.x12file
     r = native_reader(args.get('self', {}))
     return (lambda: pyx12.x12file.X12Reader.cleanup(r)), (), {'self': r}
+
+
+# ---------------------------------------------------------------------------------------
+# C01 / C07: X12Reader.__iter__ (per-line obligations; the raw line source is abstract)
+from pyvc.contract import REGISTRY as _REG
+
+contract('abs:pyx12.segment.Segment.__init__',
+         self_type=Obj('pyx12.segment.Segment'),
+         params={'seg_str': Opt(Str), 'seg_term': Str, 'ele_term': Str, 'subele_term': Str, 'repetition_term': Str},
+         returns=Opaque('Segment'),
+         raises={},
+         assume_only=True,
+         note='constructor used abstractly by the reader loop: total for string delimiters of one character '
+              '(exception freedom of the real constructor: contracts/segment.py on bounded texts + bounded stand-in)')
+
+READER_ITER = base_state('pyx12.x12file.X12Reader', raw=Obj('ext.LineSource'), seg_term=Str, ele_term=Str, subele_term=Str)
+
+contract('pyx12.x12file.X12Reader.__iter__',
+         self_type=READER_ITER,
+         returns=NoneT,
+         requires=['self.hl_count >= 0 and self.lx_count >= 0 and self.gs_count >= 0 and self.st_count >= 0 and self.seg_count >= 0',
+                   'len(self.ele_term) == 1'],
+         raises={'X12Error': True},
+         loops={0: dict(elements=Str, index='k',
+                        invariant=['self.hl_count >= 0 and self.lx_count >= 0 and self.gs_count >= 0 and self.st_count >= 0 and self.seg_count >= 0',
+                                   'len(self.ele_term) == 1'],
+                        modifies=['self.err_list', 'self.loops', 'self.hl_stack', 'self.gs_count', 'self.st_count', 'self.hl_count',
+                                  'self.seg_count', 'self.cur_line', 'self.isa_ids', 'self.gs_ids', 'self.st_ids', 'self.lx_count',
+                                  'self.isa_usage', 'err_str', 'seg_data', 'line'],
+                        types={'err_str': Str, 'seg_data': Opaque('Segment'), 'line': Str})},
+         build='build_reader_iter',
+         alias={'pyx12.segment.Segment.__init__': 'abs:pyx12.segment.Segment.__init__'},
+         serves=['C01', 'C07'],
+         note='every raw line - including empty and blank-only ones - is turned into a segment without any exception other '
+              'than the documented X12Error (ISA with a wrong element count)')
+
+
+def build_reader_iter(args):
+    """native witness search for the reader loop: interchanges whose body holds one unusual raw line"""
+    import io
+    import pyx12.x12file
+    isa = 'ISA*00*          *00*          *ZZ*SENDER         *ZZ*RECEIVER       *040608*1333*U*00401*000000001*0*P*:~'
+    lines = ['', ' ', '   ', '*', ' *', 'A', 'AB*', '  AB*1', 'ISA*1', 'IEA', 'GE', 'SE', 'HL', 'HL*x*y', '\n', 'ST*1*2']
+
+    def run():
+        for ln in lines:
+            r = pyx12.x12file.X12Reader(io.StringIO(isa + 'GS*HC*A*B*20040608*1333*1*X*004010X098A1~' + ln + '~'))
+            try:
+                for seg in r:
+                    r.pop_errors()
+                r.cleanup()
+            except pyx12.errors.X12Error:
+                pass
+    return run, (), {}
